@@ -180,8 +180,7 @@ Print Assumptions c03_expr_consumes.
 
 (* the loader's discovery worklist: for every list U that contains the top package and is closed under
    imports (the packages reachable from it: finitely many on any file tree), 2 + the number of import entries
-   of U iterations suffice.  (Stated and proved here on Model/Loader.v; C15's c15_terminates quantifies its
-   finiteness hypothesis over every top package, which no finite list satisfies.) *)
+   of U iterations suffice.  (Stated and proved here, independently of C15, on Model/Loader.v.) *)
 Theorem c03_terminates_load : forall (imports : string -> option (list string)) (U : list string),
   (forall q l x, In q U -> imports q = Some l -> In x l -> In x U) ->
   forall top fuel, In top U -> (S (S (weight imports U)) <= fuel)%nat -> load imports fuel top <> LoadFuel.
